@@ -116,10 +116,12 @@ class Workdir(object):
             Workdir._written[name] = text
 
     def write_root(self, absolute):
+        """the root file on disk (relative hrefs, like every file); returns the source the root is
+        constructed from — with absolute hrefs for a plugin string template, which has no file
+        name its includes could be relative to"""
         f = self.files[0]
-        src = G.source(f, self.path if absolute else None)
-        self._put(f['name'], src)
-        return src
+        self._put(f['name'], G.source(f))
+        return G.source(f, self.path if absolute else None)
 
     def close(self):
         pass
